@@ -67,6 +67,14 @@ def handleHookCalls (c : J) : Res := Id.run do
           (match init with | some e => [(e.etag, e.body.id)] | none => []) ++
           (answers.filter (fun x => x.status == 200 && x.etag != "")).map (fun x => (x.etag, x.body.id))
         if !(stored.contains (inm, id)) then r := fail r "C19" s!"call {i}: 304 answered with body {id}, which was never cached under the ETag sent ({inm})"
+        -- ... and a replayed body is validated like a fresh one
+        let classes : List (String × BodyClass) :=
+          (match init with | some e => [(e.body.id, e.body.cls)] | none => []) ++ answers.map (fun x => (x.body.id, x.body.cls))
+        match classes.lookup id with
+        | some .invalid => r := fail r "C19" s!"call {i}: an undecodable cached body was accepted"
+        | some .unknownFields | some .duplicateFields =>
+            if m.strict then r := fail r "C19" s!"call {i}: strict mode accepted a cached body with unknown or duplicate fields (replayed on {a.status})"
+        | _ => pure ()
         r := tag r "served-from-cache"
     else if ir.startsWith "tooMany:" then
       if a.status != 429 then r := fail r "C19" "retry delay reported for a status other than 429"
